@@ -59,12 +59,14 @@ def showSpecRead : Spec.ROut → String
   | .expired v e => s!"exp {showOptVal v} {e}"
 
 /-- Interval the stored expiry must lie in: `[t0 + T - |T|·J/2 - slack, t1 + T + |T|·J/2 + slack]`, `0` iff no ttl.
-    `slack` absorbs float64 rounding of the jitter product (see DESIGN §4.1). -/
+    `slack` absorbs float64 rounding of the jitter product (see DESIGN §4.1).
+    This is the STATEMENT of C10, spelled with literals (0 = no context ttl, -1 = UnlimitedTTL): it does not follow the
+    decision kernels regenerated from the source, so a change of those is measured against it, not absorbed by it. -/
 def expiryBounds (cfg : Cfg) (ctxTTL : Int) (t0 t1 : Time) : Option (Time × Time) :=
-  if Gen.ttlIsDefault ctxTTL && Gen.cfgIsUnlimited cfg.ttl then none
+  if ctxTTL == 0 && cfg.ttl == -1 then none
   else
-    let T := if Gen.ttlIsDefault ctxTTL then cfg.ttl else ctxTTL
-    if Gen.jitterOn cfg.jn then
+    let T := if ctxTTL == 0 then cfg.ttl else ctxTTL
+    if cfg.jn > 0 then
       let half : Int := (T.natAbs * cfg.jn.natAbs) / (2 * cfg.jd) + 1
       let slack : Int := T.natAbs / (2 ^ 40) + 1
       some (t0 + T - half - slack, t1 + T + half + slack)
